@@ -354,6 +354,26 @@ Theorem C16_unbuffered_result_channel_refuted :
 Proof. exact unbuffered_result_channel_refuted. Qed.
 Print Assumptions C16_unbuffered_result_channel_refuted.
 
+(* PARTIAL clause: "after close has returned and pending I/O has been unblocked, no goroutine or timer started by the
+   component remains".  Goroutines and timers are facts of the Go runtime; what the models carry is gathered here: the
+   monitors started by Tunnel.Start wait on a context that is cancelled once all calls returned, DisposeWithTimeout's helper
+   can always finish once the slow resource has, and Bridge.Close can always complete against stalled writes (so the
+   forwarding goroutines it unblocks end).  Missing, decided only by the harness oracle (goroutine-dump diff filtered to
+   repository frames after unblocking I/O, in every mode): that no OTHER goroutine of a component survives, and timers
+   (not observed at all). *)
+Theorem C16_nothing_left_running_partial :
+  (forall spawns ts sched, forallb (e_initial true) ts = true ->
+     let s := erun true spawns ts sched in
+     forallb e_returned (snd s) = true -> existsb e_is_closer (snd s) = true -> e_monitors_alive (fst s) = false) /\
+  (forall sh ls h, t_gate sh = true ->
+     (nth_error ls h = Some HRun \/ nth_error ls h = Some HSend \/ nth_error ls h = Some HDone) ->
+     nth_error (snd (run _ _ (tstep2 true) (sh, ls) [h; h])) h = Some HDone) /\
+  (forall ts pre, forallb f_initial ts = true ->
+     exists sched, forallb (fun t => negb (f_close_pending t))
+                     (snd (run _ _ (fstep false) (run _ _ (fstep false) (finit, ts) pre) sched)) = true).
+Proof. exact nothing_left_running_model_level. Qed.
+Print Assumptions C16_nothing_left_running_partial.
+
 (* non-vacuity: concrete thread lists satisfy the hypotheses of (1) - (6) *)
 Theorem C16_premises_satisfiable :
   forallb d_initial [DStart; DStart; AAdd {| h_id := 7; h_fail := true |}; DStart] = true /\
@@ -364,3 +384,14 @@ Theorem C16_premises_satisfiable :
   forallb f_initial [ {| f_stall := true; f_pc := WLock |}; {| f_stall := false; f_pc := WLock |}; {| f_stall := false; f_pc := KLock |} ] = true.
 Proof. exact (conj eq_refl (conj eq_refl (conj eq_refl (conj eq_refl (conj eq_refl eq_refl))))). Qed.
 Print Assumptions C16_premises_satisfiable.
+
+(* non-vacuity of the hypotheses of (7), (9), (10) and of "every thread has finished" in (3) (repaired model: two reporters
+   and a copy loop reach the all-finished state with the 100 counted bytes reported exactly once) *)
+Theorem C16_more_premises_satisfiable :
+  Forall q_ok [QStart; QStart; QClose] /\
+  NoDup (flat_map b_pending [BClose; BAttach 7; BClose; BAttach 8]) /\
+  forallb i_initial [ILookup; ILookup; IMgrClose] = true /\
+  (exists sched, forallb r_finished (snd (rrun true 0 [CAdd [100%Z]; RLock; RLock] sched)) = true /\
+                 r_stats (fst (rrun true 0 [CAdd [100%Z]; RLock; RLock] sched)) = 100%Z).
+Proof. exact more_premises_satisfiable. Qed.
+Print Assumptions C16_more_premises_satisfiable.
